@@ -162,6 +162,7 @@ struct slice
 channel_read_map(struct channel* self, struct channel_reader* reader)
 {
     size_t nbytes = 0;
+    int hold_moved = 0;
     lock_acquire(&self->lock);
 
     reader_initialize(self, reader);
@@ -200,6 +201,7 @@ channel_read_map(struct channel* self, struct channel_reader* reader)
         // committed in the new lap.
         *pos = 0;
         *cycle = self->cycle;
+        hold_moved = 1;
         out = self->data;
         nbytes = self->head;
         reader->pos = self->head;
@@ -214,6 +216,10 @@ channel_read_map(struct channel* self, struct channel_reader* reader)
 
 Finalize:
     lock_release(&self->lock);
+    // Moving the hold releases space. When nothing gets mapped no unmap will
+    // follow to announce it, so wake a writer that waits on the old position.
+    if (hold_moved && !nbytes)
+        condition_variable_notify_all(&self->notify_space_available);
     return (struct slice){ .beg = out, .end = out + nbytes };
 Overflow:
     reader->status = Channel_Error;
